@@ -16,7 +16,14 @@ def c06(tier):
     return reader.run_reader_check("C06", tier, [("MC_C06.tla", "MC_C06_thorough.cfg")], mult=2, assumptions=BASE_ASSUME)
 
 
-TABLE = {"C06": c06}
+def c04(tier):
+    if tier == "quick":
+        return reader.run_reader_check("C04", tier, [("MC_C04.tla", "MC_C04_quick.cfg")], mult=1, max_progs=4000,
+                                       assumptions=BASE_ASSUME)
+    return reader.run_reader_check("C04", tier, [("MC_C04.tla", "MC_C04_thorough.cfg")], mult=1, assumptions=BASE_ASSUME)
+
+
+TABLE = {"C04": c04, "C06": c06}
 
 # per-property overrides for MANIFEST fields (category, text, note, technique, design_ref)
 INFO = {}
